@@ -201,6 +201,10 @@ def mon_c07(sn):
                 # no other reason exists for this delete than the pod's revision, and its ordinal is below the partition
                 bad.append("pod %s (ordinal %d, revision %s) deleted because of its revision although it is below the partition %d"
                            % (c["name"], o, p0["rev"], sn.partition))
+            if k is None and p0 is not None and o in sn.desired_set and p0["phase"] not in ("Failed", "Succeeded") \
+                    and sn.strategy == "OnDelete" and sn.upd is not None and p0["rev"] != sn.upd and not p0["term"]:
+                # a live pod of the desired set: no reason for this delete exists other than its revision
+                bad.append("OnDelete: pod %s (revision %s, update revision %s) deleted because of its revision" % (c["name"], p0["rev"], sn.upd))
             if k in ("c", "fresh-c"):
                 if sn.strategy == "OnDelete":
                     bad.append("OnDelete: pod %s deleted because of its revision" % c["name"])
@@ -227,8 +231,14 @@ def mon_c07(sn):
 
 def mon_c14(sn, faulty):
     bad = []
-    if not sn.ok or not sn.domain_ok or not sn.parallel or sn.deleting or faulty or sn.obs["result"] != "ok" \
-            or sn.paused or sn.set["selector"] != "ok":
+    # a reconcile that reports an error although no API call failed (no fault was injected) is judged like a successful one:
+    # under Parallel nothing but a failed call excuses work that was not issued
+    # (the one legitimate error without a failed call: an adoption refused because the fresh read shows the set deleted or replaced)
+    failed_call = any(c.get("err") for c in sn.calls)
+    api_set = sn.sc["api"].get("set")
+    live_same = api_set is not None and api_set["uid"] == sn.set["uid"] and not api_set["deleting"]
+    if not sn.ok or not sn.domain_ok or not sn.parallel or sn.deleting or faulty or sn.obs["result"] == "panic" \
+            or (sn.obs["result"] != "ok" and (failed_call or not live_same)) or sn.paused or sn.set["selector"] != "ok":
         return bad
     created = {c["name"] for c in sn.calls if c["verb"] == "create" and c["res"] == "pods"}
     deleted = {c["name"] for c in sn.calls if c["verb"] == "delete" and c["res"] == "pods"}
@@ -314,6 +324,13 @@ def mon_c12(sn):
             upd = sum(1 for p in sn.claimed if p["phase"] != "" and not p["term"] and p["rev"] == st["updateRevision"])
             if st["replicas"] != n or st["ready"] != rr or st["updated"] != upd:
                 bad.append("status counters (%d/%d/upd %d) are not the census of the claimed pods (%d/%d/upd %d)" % (st["replicas"], st["ready"], st["updated"], n, rr, upd))
+    bad += status_retry_clauses(sn)
+    harness_refresh = any(op.get("refresh_on_conflict") for op in (sn.sc.get("ops") or []))     # the harness itself updates the cache then
+    if sn.obs.get("cache_mutated") and not harness_refresh:
+        # the computed status (or anything else) written into the object held by the informer cache: whether or not the API
+        # write succeeds, later reconciles compare against it, find nothing to write, and the stored counters stay stale
+        bad.append("the cached StatefulSet (or another cached object) was modified by the reconcile: a status that never reached "
+                   "the API server would be taken for stored")
     return bad
 
 
@@ -549,6 +566,19 @@ def benign_err(c):
     return False
 
 
+def status_retry_clauses(sn):
+    """a status write that is retried after a Conflict carries the status this reconcile computed, on a fresh copy of the
+    set: the same counters and revisions as the first attempt (only the resourceVersion may differ)"""
+    bad = []
+    writes = [c for c in sn.calls if c["verb"] == "update" and c["res"] == "statefulsets" and c.get("status")]
+    for a, b in zip(writes, writes[1:]):
+        if a.get("err") == "conflict":
+            da, db = dict(a["status"]), dict(b["status"])
+            if da != db:
+                bad.append("status write retried after a Conflict carries %s, the reconcile had computed %s" % (db, da))
+    return bad
+
+
 def mon_c09(sn, faulty):
     bad = []
     if not sn.ok:
@@ -563,6 +593,7 @@ def mon_c09(sn, faulty):
             bad.append("failed reconcile was not put back with back-off (NumRequeues=%d)" % rq)
         if sn.obs["result"] == "ok" and rq != 0:
             bad.append("successful reconcile left NumRequeues=%d" % rq)
+    bad += status_retry_clauses(sn)
     # harmless: the partial work of a failed / crashed reconcile violates none of the safety rules
     for m in (mon_c03, mon_c04, mon_c05, mon_c07, mon_c10, mon_c11):
         bad += ["[partial work] " + x for x in m(sn)]
